@@ -15,7 +15,11 @@
                                                 C03_state_all / C03_initial_state_all / C03_tags_all (xs:all content)
   enumerations use schema values               C03_enum_*
   required elements / complete subtrees        C03_valid_point, C03_valid_rectangle, C03_valid_circle (full recursive validity)
-  whole document                               C03_valid_doc_partial (root assembly), `C03_valid_doc_full` (statement)
+  every subtree down to the leaves             C03_valid_* (section 7: states, shapes, predictions, obstacles, lanelets, signs,
+                                                lights, intersections, planning problems, location, tags), C03_valid_tree
+  id / ref key constraints                     C03_keys_ok, C03_doc_key_values, C03_doc_refs
+  whole document                               C03_valid_doc : C03_valid_doc_full writerModel  (complete writer model);
+                                                C03_valid_doc_partial / C03_valid_doc_parts (root assembly from valid parts)
 -/
 import CRProofs.Xsd
 import CRProofs.XsdEnum
